@@ -1,4 +1,257 @@
-import PyaModel.Spec.SigAssignSpec
+import PyaModel.Proofs.C07
 import PyaModel.Generated.SigTypes
+import PyaModel.Spec.Mem
+import PyaModel.Generated.ClassTable
+/-!
+# Props/C07 — callable compatibility is behaviourally sound
+
+Property theorems only. Model: `sigCanAssign` (Core/SigAssign.lean, follows
+`Signature.can_assign` branch by branch; `R : TyRel τ` = the annotation-level questions it asks).
+Spec: `BehSound` / `ArgsContra` (Spec/SigAssignSpec.lean) over CPython's binder `cpyBind`
+(Spec/CpyBind.lean).  `E` = expected header (`self`), `A` = actual header (`other`).
+
+The code does **not** satisfy the full statement; the exception classes are
+`D07_posKwClash`, `D07_starKwClash` (behavioural) and `D07_kwShadow` (typed).
+-/
 namespace Pya.C07
+
+variable {τ : Type}
+
+/-- **C07, full statement (not asserted — it is false, see the witnesses).** Whenever
+pyanalyze accepts `A` where `E` is expected, every concrete call shape `E` binds is bound by `A`. -/
+def SigAssignSoundFull (R : TyRel τ) : Prop :=
+  ∀ E A : TDefSig τ, E.WF → A.WF → sigCanAssign R E.tsig A.tsig = true → BehSound E A
+
+/-- **C07, typed part, full statement (not asserted).** Accepted pairs are contravariant in
+every parameter and covariant in the return annotation. -/
+def SigAssignVarianceFull (R : TyRel τ) (sup : τ → τ → Prop) : Prop :=
+  ∀ E A : TDefSig τ, E.WF → A.WF → sigCanAssign R E.tsig A.tsig = true →
+    ArgsContra sup E A ∧ sup A.ret E.ret
+
+/-- **Behavioural soundness outside the two exception classes** — for every pair of `def`
+headers (any number of parameters of every kind, any default pattern, any annotations, the actual
+header with distinct names), any annotation relation `R`, and **every** concrete call shape
+(no bound on the number of positionals or keywords): if `Signature.can_assign` accepts the pair and
+the pair is in neither `posKwClash` nor `starKwClash`, then every call the expected header binds
+is bound by the actual header. -/
+theorem sig_assign_sound_partial (R : TyRel τ) (E A : TDefSig τ) (hA : A.WF)
+    (h1 : ¬ D07_posKwClash E A = true) (h2 : ¬ D07_starKwClash E A = true)
+    (hacc : sigCanAssign R E.tsig A.tsig = true) : BehSound E A := by
+  intro c hc
+  rw [sig_eq_nf] at hacc
+  obtain ⟨n, ks⟩ := c
+  exact nf_sound R E A hA hacc (by simpa using h1) (by simpa using h2) n ks hc
+
+/-- **Parameter contravariance and return covariance outside the exception classes** — for any
+supertype relation `sup` for which the annotation-level answers `R` are sound (`RelSound`): in an
+accepted pair outside `posKwClash` and `kwShadow`, every argument of every call the expected header
+binds lands, in the actual header, on a parameter whose annotation is a supertype of the annotation
+it lands on in the expected header; and the actual return annotation is a subtype of the expected
+one. All call shapes, no bound. -/
+theorem sig_assign_variance_partial (R : TyRel τ) (sup : τ → τ → Prop) (hR : RelSound R sup)
+    (E A : TDefSig τ) (hE : E.WF) (hA : A.WF)
+    (h1 : ¬ D07_posKwClash E A = true) (h3 : ¬ D07_kwShadow R E A = true)
+    (hacc : sigCanAssign R E.tsig A.tsig = true) :
+    ArgsContra sup E A ∧ sup A.ret E.ret := by
+  rw [sig_eq_nf] at hacc
+  exact ⟨nf_contra R sup hR E A hE hA hacc (by simpa using h1) (by simpa using h3),
+    hR.asg _ _ (nf_ret R E A hacc)⟩
+
+/-- **The two behavioural classes are exact.** For every pair pyanalyze accepts (both headers
+with distinct names): every call the expected header binds is bound by the actual header
+*if and only if* the pair is in neither `posKwClash` nor `starKwClash`. (The "only if" direction
+does not even need acceptance: a pair in one of the classes is behaviourally unsound whatever
+pyanalyze answers — `posKwClash_unsound`, `starKwClash_unsound` in Proofs/C07.lean construct the
+failing call.) -/
+theorem sig_assign_sound_iff (R : TyRel τ) (E A : TDefSig τ) (hE : E.WF) (hA : A.WF)
+    (hacc : sigCanAssign R E.tsig A.tsig = true) :
+    BehSound E A ↔ (¬ D07_posKwClash E A = true ∧ ¬ D07_starKwClash E A = true) := by
+  constructor
+  · intro hs
+    exact ⟨fun h => posKwClash_unsound E A hE h hs, fun h => starKwClash_unsound E A hE h hs⟩
+  · rintro ⟨h1, h2⟩
+    exact sig_assign_sound_partial R E A hA h1 h2 hacc
+
+/-- A pair in `posKwClash` is behaviourally unsound (whatever pyanalyze answers). -/
+theorem posKwClash_exact (E A : TDefSig τ) (hE : E.WF) (hD : D07_posKwClash E A = true) :
+    ∃ c, cpyBind E.shape c = true ∧ cpyBind A.shape c = false :=
+  posKwClash_cex E A hE hD
+
+/-- A pair in `starKwClash` is behaviourally unsound (whatever pyanalyze answers). -/
+theorem starKwClash_exact (E A : TDefSig τ) (hE : E.WF) (hD : D07_starKwClash E A = true) :
+    ∃ c, cpyBind E.shape c = true ∧ cpyBind A.shape c = false :=
+  starKwClash_cex E A hE hD
+
+/-- **Overloads.** `OverloadedSignature.can_assign` (every expected overload is matched by some
+actual overload): if no matched pair is in an exception class, every call bound by *some*
+expected overload is bound by *some* actual overload. -/
+theorem ov_assign_sound_partial (R : TyRel τ) (Es As : List (TDefSig τ))
+    (hA : ∀ A ∈ As, A.WF)
+    (hD : ∀ E ∈ Es, ∀ A ∈ As, ¬ D07_posKwClash E A = true ∧ ¬ D07_starKwClash E A = true)
+    (hacc : ovCanAssign R (Es.map (·.tsig)) (As.map (·.tsig)) = true)
+    (c : CCall) (hc : ∃ E ∈ Es, cpyBind E.shape c = true) :
+    ∃ A ∈ As, cpyBind A.shape c = true := by
+  obtain ⟨E, hE, hb⟩ := hc
+  simp only [ovCanAssign, List.all_map, List.any_map, List.all_eq_true, List.any_eq_true,
+    Function.comp_apply] at hacc
+  obtain ⟨A, hAm, ha⟩ := hacc E hE
+  exact ⟨A, hAm, sig_assign_sound_partial R E A (hA A hAm) (hD E hE A hAm).1 (hD E hE A hAm).2 ha c hb⟩
+
+/-! ## The regenerated annotation tables are sound for the membership model -/
+
+/-- Supertype relation on the annotation tags: inclusion of the representative members, with an
+unannotated side gradual. -/
+abbrev tagSup (S T : Tag) : Prop := tagIncl S T = true
+
+/-- Obligation over `Generated/SigTypes.lean`: each of the seven answers pyanalyze gives on the tag
+universe is sound for `tagSup`. Re-checked whenever the tables are regenerated. -/
+theorem liveTyRel_sound : RelSound liveTyRel tagSup := by
+  constructor <;> intro T S <;> cases T <;> cases S <;> decide
+
+/-- `tagIncl` on two real annotations is inclusion of the representative members. -/
+theorem tagIncl_members (S T : Tag) (hS : S ≠ .any) (hT : T ≠ .any) (h : tagIncl S T = true)
+    (x : RObj) : memR x S = true → memR x T = true := by
+  revert h; cases S <;> cases T <;> cases x <;> simp_all [tagIncl, RObj.all, memR]
+
+/-- The typed theorem instantiated with the regenerated tables of the tag universe. -/
+theorem sig_assign_variance_tags (E A : TDefSig Tag) (hE : E.WF) (hA : A.WF)
+    (h1 : ¬ D07_posKwClash E A = true) (h3 : ¬ D07_kwShadow liveTyRel E A = true)
+    (hacc : sigCanAssign liveTyRel E.tsig A.tsig = true) :
+    ArgsContra tagSup E A ∧ tagSup A.ret E.ret :=
+  sig_assign_variance_partial liveTyRel tagSup liveTyRel_sound E A hE hA h1 h3 hacc
+
+/-! ## Witnesses: the full statements are false, one concrete pair per exception class -/
+
+def wp (n : String) (d : Bool := false) : TP Tag := ⟨n, d, .any⟩
+
+/-- `def f(x, /, **kw)` ← `def g(a, **kw)`; `f(1, a=2)` binds, `g(1, a=2)` does not. -/
+def wPosKwE : TDefSig Tag := { po := [wp "x"], pk := [], vp := none, ko := [], vk := some ("kw", .any), ret := .any }
+def wPosKwA : TDefSig Tag := { po := [], pk := [wp "a"], vp := none, ko := [], vk := some ("kw", .any), ret := .any }
+
+theorem witness_posKwClash :
+    wPosKwE.WF ∧ wPosKwA.WF ∧ sigCanAssign liveTyRel wPosKwE.tsig wPosKwA.tsig = true ∧
+    D07_posKwClash wPosKwE wPosKwA = true ∧ D07_starKwClash wPosKwE wPosKwA = false ∧
+    cpyBind wPosKwE.shape ⟨1, ["a"]⟩ = true ∧ cpyBind wPosKwA.shape ⟨1, ["a"]⟩ = false := by
+  decide
+
+/-- `def f(*args, **kw)` ← `def g(a=0, *args, **kw)`; `f(1, a=2)` binds, `g(1, a=2)` does not. -/
+def wStarKwE : TDefSig Tag := { po := [], pk := [], vp := some ("args", .any), ko := [], vk := some ("kw", .any), ret := .any }
+def wStarKwA : TDefSig Tag := { po := [], pk := [wp "a" true], vp := some ("args", .any), ko := [], vk := some ("kw", .any), ret := .any }
+
+theorem witness_starKwClash :
+    wStarKwE.WF ∧ wStarKwA.WF ∧ sigCanAssign liveTyRel wStarKwE.tsig wStarKwA.tsig = true ∧
+    D07_starKwClash wStarKwE wStarKwA = true ∧ D07_posKwClash wStarKwE wStarKwA = false ∧
+    cpyBind wStarKwE.shape ⟨1, ["a"]⟩ = true ∧ cpyBind wStarKwA.shape ⟨1, ["a"]⟩ = false := by
+  decide
+
+/-- The behavioural full statement is false of the model (and, by the correspondence run, of the
+implementation), through either class. -/
+theorem sig_assign_sound_full_false : ¬ SigAssignSoundFull liveTyRel := by
+  intro h
+  have w := witness_posKwClash
+  have := h wPosKwE wPosKwA w.1 w.2.1 w.2.2.1 ⟨1, ["a"]⟩ w.2.2.2.2.2.1
+  rw [w.2.2.2.2.2.2] at this
+  cases this
+
+theorem sig_assign_sound_full_false' : ¬ SigAssignSoundFull liveTyRel := by
+  intro h
+  have w := witness_starKwClash
+  have := h wStarKwE wStarKwA w.1 w.2.1 w.2.2.1 ⟨1, ["a"]⟩ w.2.2.2.2.2.1
+  rw [w.2.2.2.2.2.2] at this
+  cases this
+
+/-- `def f(b: float)` ← `def g(*c, b: int = 0, **a)`; in `f(b=1.5)` the argument lands on `b: int`. -/
+def wShadowE : TDefSig Tag := { po := [], pk := [⟨"b", false, .float⟩], vp := none, ko := [], vk := none, ret := .any }
+def wShadowA : TDefSig Tag :=
+  { po := [], pk := [], vp := some ("c", .any), ko := [⟨"b", true, .int⟩], vk := some ("a", .any), ret := .any }
+
+theorem witness_kwShadow :
+    wShadowE.WF ∧ wShadowA.WF ∧ sigCanAssign liveTyRel wShadowE.tsig wShadowA.tsig = true ∧
+    D07_kwShadow liveTyRel wShadowE wShadowA = true ∧ D07_posKwClash wShadowE wShadowA = false ∧
+    D07_starKwClash wShadowE wShadowA = false ∧
+    cpyBind wShadowE.shape ⟨0, ["b"]⟩ = true ∧ cpyBind wShadowA.shape ⟨0, ["b"]⟩ = true ∧
+    kwTy wShadowE "b" = some .float ∧ kwTy wShadowA "b" = some .int ∧ tagIncl .float .int = false := by
+  decide
+
+/-- The typed full statement is false. -/
+theorem sig_assign_variance_full_false : ¬ SigAssignVarianceFull liveTyRel tagSup := by
+  intro h
+  have w := witness_kwShadow
+  obtain ⟨hc, _⟩ := h wShadowE wShadowA w.1 w.2.1 w.2.2.1
+  obtain ⟨S, T, hS, hT, hST⟩ := (hc ⟨0, ["b"]⟩ w.2.2.2.2.2.2.1).2 "b" (by simp)
+  rw [w.2.2.2.2.2.2.2.2.1] at hS
+  rw [w.2.2.2.2.2.2.2.2.2.1] at hT
+  cases hS; cases hT
+  rw [tagSup, w.2.2.2.2.2.2.2.2.2.2] at hST
+  cases hST
+
+/-! ## Non-vacuity: the hypotheses are met by a pair using every parameter kind, annotated
+
+`def f(a: int, /, b: int, c: int = 0, *args: int, d: bool, e: int = 0, **kw: int) -> float`
+`def g(p: float, /, b: int, c: object = 0, *args: float, d: int, e: int = 0, f: object = 1, **kw: float) -> int` -/
+def exE : TDefSig Tag :=
+  { po := [⟨"a", false, .int⟩], pk := [⟨"b", false, .int⟩, ⟨"c", true, .int⟩], vp := some ("args", .int),
+    ko := [⟨"d", false, .bool⟩, ⟨"e", true, .int⟩], vk := some ("kw", .int), ret := .float }
+def exA : TDefSig Tag :=
+  { po := [⟨"p", false, .float⟩], pk := [⟨"b", false, .int⟩, ⟨"c", true, .object⟩], vp := some ("args", .float),
+    ko := [⟨"d", false, .int⟩, ⟨"e", true, .int⟩, ⟨"f", true, .object⟩], vk := some ("kw", .float), ret := .int }
+
+example : exE.WF ∧ exA.WF := by decide
+example : sigCanAssign liveTyRel exE.tsig exA.tsig = true := by decide
+example : ¬ D07_posKwClash exE exA = true ∧ ¬ D07_starKwClash exE exA = true ∧
+    ¬ D07_kwShadow liveTyRel exE exA = true := by decide
+example : cpyBind exE.shape ⟨4, ["d", "z"]⟩ = true := by decide      -- f(1, 2, 3, 4, d=True, z=5)
+example : cpyBind exA.shape ⟨4, ["d", "z"]⟩ = true :=
+  sig_assign_sound_partial liveTyRel exE exA (by decide) (by decide) (by decide) (by decide) _ (by decide)
+example : sigCanAssign liveTyRel exA.tsig exE.tsig = false := by decide  -- and the converse pair is rejected
+example : ovCanAssign liveTyRel [exE.tsig, wShadowE.tsig] [wShadowA.tsig, exA.tsig] = true := by decide
+
+/-- The tags as value terms of the shared membership model (Spec/Mem.lean). -/
+def Tag.cls : Tag → Cls
+  | .any => C.object | .object => C.object | .int => C.int | .bool => C.bool
+  | .float => C.float | .str => C.str
+
+def Tag.ty : Tag → Ty
+  | .any => .any
+  | t => .typed t.cls
+
+theorem sub_oob (c e : Cls) (h : liveTable.names.length ≤ c) : sub liveTable c e = false := by
+  have h1 : ∀ b, liveTable.issub c b = false := by
+    intro b
+    unfold ClassTable.issub
+    have : liveTable.issubM[c]? = none := List.getElem?_eq_none (by simpa [liveTable] using h)
+    simp [List.getD_eq_getElem?_getD, this]
+  simp [sub, h1]
+
+/-- Obligation over the live class table: on every class of the table, `tagIncl` between two real
+annotations is inclusion of `sub` (CPython's `issubclass` plus the numeric promotions). -/
+theorem tagIncl_sub_table :
+    ((List.range liveTable.names.length).all fun d => Tag.all.all fun S => Tag.all.all fun T =>
+      S == .any || T == .any || !tagIncl S T || !sub liveTable d S.cls || sub liveTable d T.cls) = true := by
+  decide +kernel
+
+/-- …and `tagIncl` is inclusion under the structural membership `mem` over the live class table:
+for two real annotations, `tagIncl S T` implies that every object of the universe that is a member
+of `S` is a member of `T`. -/
+theorem tagIncl_mem (S T : Tag) (hS : S ≠ .any) (hT : T ≠ .any) (h : tagIncl S T = true)
+    (o : Obj) : mem liveTable o S.ty = true → mem liveTable o T.ty = true := by
+  have hm : ∀ U : Tag, U ≠ .any → mem liveTable o U.ty = sub liveTable (clsOf liveTable o) U.cls := by
+    intro U hU
+    cases U <;> first | exact absurd rfl hU | simp [Tag.ty, mem]
+  rw [hm S hS, hm T hT]
+  generalize clsOf liveTable o = d
+  by_cases hd : d < liveTable.names.length
+  · have := List.all_eq_true.mp tagIncl_sub_table d (List.mem_range.mpr hd)
+    have := List.all_eq_true.mp this S (by cases S <;> simp [Tag.all])
+    have := List.all_eq_true.mp this T (by cases T <;> simp [Tag.all])
+    have hS' : (S == Tag.any) = false := by cases S <;> first | exact absurd rfl hS | rfl
+    have hT' : (T == Tag.any) = false := by cases T <;> first | exact absurd rfl hT | rfl
+    simp only [hS', hT', h, Bool.false_or, Bool.not_true, Bool.or_eq_true, Bool.not_eq_true'] at this
+    intro hs
+    rcases this with h' | h'
+    · rw [hs] at h'; cases h'
+    · exact h'
+  · rw [sub_oob d S.cls (Nat.le_of_not_lt hd)]
+    intro h'; cases h'
+
 end Pya.C07
